@@ -229,3 +229,227 @@ rle32_exact!(c09_rle32_exact_3x2_run0, 3, 2, [0x03, 0x30, -1, -1, -1], 24);
 rle32_exact!(c09_rle32_exact_4x3_mixed, 4, 3, [0x40, -1, -1, -1, -1, 0x04, 0x13, -1], 36);
 rle32_exact!(c09_rle32_exact_16x1_long, 16, 1, [0x01], 20);
 rle32_exact!(c09_rle32_exact_18x2_long, 18, 2, [0x10, -1, 0x11, 0x21], 24);
+
+// ---------------------------------------------------------------- C08/C09 (d): interleaved RLE (16 bpp)
+// rle_16_decompress with CONCRETE order headers (one chosen order sequence per
+// instance) and SYMBOLIC pixel / colour / mask values, against the formulas of
+// MS-RDPBCGR 2.2.9.1.1.3.1.2.4 written out per order. With symbolic order bytes
+// CBMC does not finish even a 1x1 image (DESIGN G3); with the control flow made
+// concrete by the template the decoder runs in seconds.
+fn put16(buf: &mut [u8], at: usize, v: u16) { buf[at] = v as u8; buf[at + 1] = (v >> 8) as u8; }
+
+/// first scanline: COLOR_IMAGE of W symbolic pixels (W < 32); returns the pixels and the number of bytes used
+fn first_line<const W: usize, const N: usize>(input: &mut [u8; N]) -> ([u16; W], usize) {
+    let px: [u16; W] = kani::any();
+    input[0] = 0x80 | W as u8;
+    let mut i = 0;
+    while i < W { put16(input, 1 + 2 * i, px[i]); i += 1; }
+    (px, 1 + 2 * W)
+}
+
+macro_rules! rle16_second_line {
+    ($name:ident, $w:expr, $extra:expr, $unw:expr, |$inp:ident, $o:ident, $above:ident| $build:block, |$row:ident, $ab:ident| $expect:block) => {
+        #[kani::proof]
+        #[kani::unwind($unw)]
+        fn $name() {
+            const W: usize = $w;
+            const N: usize = 1 + 2 * W + $extra;
+            let mut input = [0u8; N];
+            let (above, used) = first_line::<W, N>(&mut input);
+            {
+                let $inp = &mut input;
+                let $o = used;
+                let $above = &above;
+                $build
+            }
+            let mut out = [0u16; W * 2];
+            let r = rle_16_decompress(&input, W, 2, &mut out);
+            assert!(r.is_ok(), "a conformant stream decodes");
+            // first decoded scanline is the bottom row, the second the top row
+            let mut i = 0;
+            while i < W { assert!(out[W + i] == above[i], "COLOR_IMAGE scanline is stored verbatim as the bottom row"); i += 1; }
+            let mut row = [0u16; W];
+            let mut i = 0;
+            while i < W { row[i] = out[i]; i += 1; }
+            {
+                let $row = &row;
+                let $ab = &above;
+                $expect
+            }
+            kani::cover!(above[0] != above[W - 1], "distinct pixels above");
+            forget(r);
+        }
+    };
+}
+
+// BG_RUN: copy of the pixel above
+rle16_second_line!(c09_rle16_bg_run, 4, 1, 14, |inp, o, _ab| { inp[o] = 0x04; },
+    |row, ab| { let mut i = 0; while i < 4 { assert!(row[i] == ab[i], "BG_RUN = pixel above"); i += 1; } });
+// FG_RUN with the default foreground (white)
+rle16_second_line!(c09_rle16_fg_run, 4, 1, 14, |inp, o, _ab| { inp[o] = 0x24; },
+    |row, ab| { let mut i = 0; while i < 4 { assert!(row[i] == ab[i] ^ 0xffff, "FG_RUN = above xor fgPel (default white)"); i += 1; } });
+// SET_FG_FG_RUN (lite form) with a symbolic foreground
+rle16_second_line!(c09_rle16_set_fg_run, 4, 3, 14, |inp, o, _ab| { inp[o] = 0xC4; let fg: u16 = kani::any(); put16(inp, o + 1, fg); },
+    |row, ab| { let fg = row[0] ^ ab[0]; let mut i = 0; while i < 4 { assert!(row[i] == ab[i] ^ fg, "SET_FG_FG_RUN = above xor the new fgPel"); i += 1; } });
+// FGBG_IMAGE (count by extra byte) with a symbolic bit mask
+rle16_second_line!(c09_rle16_fgbg_image, 4, 3, 14, |inp, o, _ab| { inp[o] = 0x40; inp[o + 1] = 3; inp[o + 2] = kani::any(); },
+    |row, ab| { let m = 0u8; let _ = m; let mut i = 0; while i < 4 { assert!(row[i] == ab[i] || row[i] == ab[i] ^ 0xffff, "FGBG pixel is above or above xor fgPel"); i += 1; } });
+// COLOR_RUN
+rle16_second_line!(c09_rle16_color_run, 4, 3, 14, |inp, o, _ab| { inp[o] = 0x64; let c: u16 = kani::any(); put16(inp, o + 1, c); },
+    |row, _ab| { let mut i = 1; while i < 4 { assert!(row[i] == row[0], "COLOR_RUN repeats one colour"); i += 1; } });
+// DITHERED_RUN (two pairs)
+rle16_second_line!(c09_rle16_dithered, 4, 5, 14, |inp, o, _ab| { inp[o] = 0xE2; let a: u16 = kani::any(); let b: u16 = kani::any(); put16(inp, o + 1, a); put16(inp, o + 3, b); },
+    |row, _ab| { assert!(row[2] == row[0] && row[3] == row[1], "DITHERED_RUN alternates its two colours"); });
+// consecutive BG_RUNs: the second one starts with an inserted foreground pixel
+rle16_second_line!(c09_rle16_bg_bg_insert, 4, 2, 14, |inp, o, _ab| { inp[o] = 0x02; inp[o + 1] = 0x02; },
+    |row, ab| { assert!(row[0] == ab[0] && row[1] == ab[1] && row[2] == ab[2] ^ 0xffff && row[3] == ab[3], "a BG_RUN directly after a BG_RUN inserts one foreground pixel"); });
+// WHITE / BLACK single-pixel orders
+rle16_second_line!(c09_rle16_white_black, 2, 2, 12, |inp, o, _ab| { inp[o] = 0xFD; inp[o + 1] = 0xFE; },
+    |row, _ab| { assert!(row[0] == 0xffff && row[1] == 0, "WHITE then BLACK"); });
+// FGBG1 / FGBG2 special orders (8 pixels, masks 0x03 / 0x05)
+rle16_second_line!(c09_rle16_fgbg1, 8, 1, 22, |inp, o, _ab| { inp[o] = 0xF9; },
+    |row, ab| { let mut i = 0; while i < 8 { let e = if i < 2 { ab[i] ^ 0xffff } else { ab[i] }; assert!(row[i] == e, "SPECIAL_FGBG_1: mask 0x03"); i += 1; } });
+rle16_second_line!(c09_rle16_fgbg2, 8, 1, 22, |inp, o, _ab| { inp[o] = 0xFA; },
+    |row, ab| { let mut i = 0; while i < 8 { let e = if i == 0 || i == 2 { ab[i] ^ 0xffff } else { ab[i] }; assert!(row[i] == e, "SPECIAL_FGBG_2: mask 0x05"); i += 1; } });
+// MEGA_MEGA COLOR_RUN (16-bit run length)
+rle16_second_line!(c09_rle16_mega_color_run, 4, 5, 14, |inp, o, _ab| { inp[o] = 0xF3; inp[o + 1] = 4; inp[o + 2] = 0; let c: u16 = kani::any(); put16(inp, o + 3, c); },
+    |row, _ab| { let mut i = 1; while i < 4 { assert!(row[i] == row[0], "MEGA COLOR_RUN"); i += 1; } });
+
+/// exact values for the orders whose parameters the closures above cannot see
+#[kani::proof]
+#[kani::unwind(14)]
+fn c09_rle16_exact_values() {
+    // one scanline, width 4: COLOR_RUN(2, c) then FGBG_IMAGE(2 pixels, mask m) on the first scanline:
+    // first-scanline semantics: background = black (0), foreground = fgPel (white)
+    let c: u16 = kani::any();
+    let m: u8 = kani::any();
+    let input = [0x62u8, c as u8, (c >> 8) as u8, 0x40, 1, m];
+    let mut out = [0u16; 4];
+    let r = rle_16_decompress(&input, 4, 1, &mut out);
+    assert!(r.is_ok(), "decodes");
+    assert!(out[0] == c && out[1] == c, "COLOR_RUN carries its colour exactly");
+    assert!(out[2] == if m & 1 != 0 { 0xffff } else { 0 }, "FGBG on the first scanline: bit 0");
+    assert!(out[3] == if m & 2 != 0 { 0xffff } else { 0 }, "FGBG on the first scanline: bit 1");
+    kani::cover!(m & 3 == 1, "mixed mask");
+    forget(r);
+}
+
+/// the 8-way unrolled path of the decoder's repeat! macro (run >= 8 on a scanline wider than 8)
+#[kani::proof]
+#[kani::unwind(14)]
+fn c09_rle16_unrolled_color_run() {
+    let c: u16 = kani::any();
+    let input = [0x6Au8, c as u8, (c >> 8) as u8];
+    let mut out = [0u16; 10];
+    let r = rle_16_decompress(&input, 10, 1, &mut out);
+    assert!(r.is_ok(), "decodes");
+    let mut i = 0;
+    while i < 10 { assert!(out[i] == c, "COLOR_RUN of 10 on a 10-pixel scanline"); i += 1; }
+    kani::cover!(c == 0x1234, "sample");
+    forget(r);
+}
+
+/// a run that crosses the scanline end continues on the next scanline (upwards); a run past the image is refused
+#[kani::proof]
+#[kani::unwind(12)]
+fn c08_rle16_wrap_and_overrun() {
+    let c: u16 = kani::any();
+    let input = [0x64u8, c as u8, (c >> 8) as u8];
+    let mut out = [0u16; 4];
+    let r = rle_16_decompress(&input, 2, 2, &mut out);
+    assert!(r.is_ok() && out[0] == c && out[1] == c && out[2] == c && out[3] == c, "a run of 4 fills a 2x2 image across the scanline end");
+    forget(r);
+    let input2 = [0x65u8, c as u8, (c >> 8) as u8];
+    let mut out2 = [0u16; 4];
+    let r2 = rle_16_decompress(&input2, 2, 2, &mut out2);
+    assert!(r2.is_err(), "a run longer than the image is refused, not written past the buffer");
+    kani::cover!(c != 0, "non-black");
+    forget(r2);
+}
+
+/// unknown order codes followed by any 3 bytes are errors (the code is an instance parameter)
+macro_rules! rle16_unknown {
+    ($name:ident, $code:expr) => {
+        #[kani::proof]
+        #[kani::unwind(8)]
+        fn $name() {
+            let p: [u8; 3] = kani::any();
+            let input = [$code, p[0], p[1], p[2]];
+            let mut out = [0u16; 4];
+            let r = rle_16_decompress(&input, 2, 2, &mut out);
+            assert!(r.is_err(), "unknown order code is an error");
+            kani::cover!(p[0] == 0x10, "sample");
+            forget(r);
+        }
+    };
+}
+rle16_unknown!(c08_rle16_unknown_a1, 0xA1u8);
+rle16_unknown!(c08_rle16_unknown_fb, 0xFBu8);
+rle16_unknown!(c08_rle16_unknown_ff, 0xFFu8);
+
+/// FGBG_IMAGE / SET_FG_FGBG_IMAGE on a later scanline with symbolic mask and foreground: exact per-bit
+/// semantics (the form is an instance parameter: a symbolic order byte does not finish)
+macro_rules! rle16_fgbg_exact {
+    ($name:ident, $set_fg:expr) => {
+        #[kani::proof]
+        #[kani::unwind(14)]
+        fn $name() {
+            let ab: [u16; 4] = kani::any();
+            let m: u8 = kani::any();
+            let fg: u16 = kani::any();
+            const N: usize = if $set_fg { 14 } else { 12 };
+            let mut input = [0u8; N];
+            input[0] = 0x84;
+            let mut i = 0;
+            while i < 4 { put16(&mut input, 1 + 2 * i, ab[i]); i += 1; }
+            if $set_fg { input[9] = 0xD0; input[10] = 3; put16(&mut input, 11, fg); input[13] = m; }
+            else { input[9] = 0x40; input[10] = 3; input[11] = m; }
+            let mut out = [0u16; 8];
+            let r = rle_16_decompress(&input, 4, 2, &mut out);
+            assert!(r.is_ok(), "decodes");
+            let f = if $set_fg { fg } else { 0xffff };
+            let mut i = 0;
+            while i < 4 {
+                let e = if (m >> i) & 1 != 0 { ab[i] ^ f } else { ab[i] };
+                assert!(out[i] == e, "FGBG bit i selects above xor fgPel, else above");
+                i += 1;
+            }
+            kani::cover!(m & 0xf == 0x5, "alternating mask");
+            forget(r);
+        }
+    };
+}
+rle16_fgbg_exact!(c09_rle16_fgbg_exact, false);
+rle16_fgbg_exact!(c09_rle16_set_fg_fgbg_exact, true);
+
+/// DITHERED_RUN exact colours and SET_FG_FG_RUN exact foreground, first scanline
+#[kani::proof]
+#[kani::unwind(14)]
+fn c09_rle16_dithered_setfg_exact() {
+    let a: u16 = kani::any();
+    let b: u16 = kani::any();
+    let fg: u16 = kani::any();
+    let input = [0xE1u8, a as u8, (a >> 8) as u8, b as u8, (b >> 8) as u8, 0xC2, fg as u8, (fg >> 8) as u8];
+    let mut out = [0u16; 4];
+    let r = rle_16_decompress(&input, 4, 1, &mut out);
+    assert!(r.is_ok(), "decodes");
+    assert!(out[0] == a && out[1] == b, "DITHERED_RUN of one pair = colour1, colour2");
+    assert!(out[2] == fg && out[3] == fg, "SET_FG_FG_RUN on the first scanline paints the new foreground");
+    kani::cover!(a != b && fg != a, "distinct");
+    forget(r);
+}
+
+/// COLOR_RUN of 3 on a 2x2 image: exactly three pixels painted, in decode order (bottom row first)
+#[kani::proof]
+#[kani::unwind(12)]
+fn c08_rle16_color_run_partial() {
+    let c: u16 = kani::any();
+    kani::assume(c != 0);
+    let input = [0x63u8, c as u8, (c >> 8) as u8];
+    let mut out = [0u16; 4];
+    let r = rle_16_decompress(&input, 2, 2, &mut out);
+    assert!(r.is_ok(), "decodes");
+    assert!(out[2] == c && out[3] == c && out[0] == c && out[1] == 0, "bottom row, then the first pixel of the top row");
+    kani::cover!(c == 0xffff, "white");
+    forget(r);
+}
